@@ -107,7 +107,13 @@ verif_yield(int site, uint64_t key)
     break;
 
   case M_SLOWTHREAD:
-    if (thread_ord == sched_seed % (thread_counter ? thread_counter : 1)) {
+    {
+      unsigned nthr = __atomic_load_n(&thread_counter, __ATOMIC_RELAXED);
+
+      if (thread_ord != sched_seed % (nthr ? nthr : 1))
+        break;
+    }
+    {
       if (rnd() % 4u == 0)
         nap(1 + rnd() % 200u);
       else
